@@ -161,3 +161,141 @@ Proof.
   cbn [has_ty expand1] in H. apply andb_true_iff in H as [H12 H3]. apply andb_true_iff in H12 as [H1 H2].
   apply N.leb_le in H2. auto.
 Qed.
+
+Lemma refl_domain_expand1_r : forall t, refl_domain t = true -> refl_domain (expand1 t) = true.
+Proof. intros t H. destruct t as [[]| | | |]; exact H. Qed.
+
+Lemma flat_map_ext_Forall {A B} (f g : A -> list B) (l : list A) :
+  Forall (fun x => f x = g x) l -> flat_map f l = flat_map g l.
+Proof. intro H. induction H as [|x r Hx Hr IH]; [reflexivity|]. cbn [flat_map]. now rewrite Hx, IH. Qed.
+
+Section P.
+  Variable parse : string -> option ty.
+  Hypothesis parse_print : forall t, wf_ty t = true -> parse (print t) = Some t.
+  Variable c : wcfg.
+
+  (* ---------- the encoder writes the documented bytes ---------- *)
+  Theorem refl_enc_spec : forall v t,
+    refl_drop8 c = false -> has_ty v t = true -> refl_domain t = true -> refl_enc c v = spec_enc v.
+  Proof.
+    intros v t Hd8. revert t.
+    induction v as [w b|b|s|l IHl|kvs IHkvs|l IHl|t' v' IHv] using tval_ind2; intros t Hty Hdom;
+      cbn [refl_enc spec_enc].
+    - now rewrite Hd8, andb_false_r.
+    - reflexivity.
+    - reflexivity.
+    - apply has_ty_list_inv_r in Hty as [t' [Et [Hlen Hall]]]. subst t. cbn [refl_domain] in Hdom.
+      unfold enc_u32. f_equal. apply flat_map_ext_Forall.
+      rewrite Forall_forall in IHl, Hall |- *. intros x Hx. apply (IHl x Hx t'); auto.
+    - apply has_ty_map_inv_r in Hty as [tk [tv [Et [Hlen Hall]]]]. subst t. cbn [refl_domain] in Hdom.
+      apply andb_true_iff in Hdom as [Hdk Hdv].
+      unfold enc_u32. f_equal. apply flat_map_ext_Forall.
+      rewrite Forall_forall in IHkvs, Hall |- *. intros kv Hkv.
+      destruct (IHkvs kv Hkv) as [IHk IHv]. destruct (Hall kv Hkv) as [Hk Hv].
+      now rewrite (IHk tk), (IHv tv).
+    - apply flat_map_ext_Forall.
+      apply has_ty_tup_inv_r in Hty as [[ts [Et Hall]]|[[n [fs [Et Hall]]]|[Et El]]].
+      + subst t. cbn [refl_domain] in Hdom. rewrite forallb_forall in Hdom.
+        induction Hall as [|x t l ts Hx Hr IH]; [constructor|].
+        inversion IHl as [|x' l' IHx IHr]; subst.
+        constructor; [apply (IHx t); [exact Hx|apply Hdom; now left]|].
+        apply IH; [exact IHr|]. intros t0 Ht0. apply Hdom. now right.
+      + apply refl_domain_expand1_r in Hdom. rewrite Et in Hdom. cbn [refl_domain] in Hdom.
+        rewrite forallb_forall in Hdom.
+        clear Et. induction Hall as [|x f l fs Hx Hr IH]; [constructor|].
+        inversion IHl as [|x' l' IHx IHr]; subst.
+        constructor; [apply (IHx (snd f)); [exact Hx|apply (Hdom f); now left]|].
+        apply IH; [exact IHr|]. intros f0 Hf0. apply Hdom. now right.
+      + subst l. constructor.
+    - apply has_ty_dyn_inv_r in Hty as [Et _]. subst t. discriminate Hdom.
+  Qed.
+
+  (* ---------- generic decoding lemmas (local copies, suffix _r) ---------- *)
+  Lemma take_n_app_r : forall (a rest : bytes), take_n (List.length a) (a ++ rest) = ROk (a, rest).
+  Proof.
+    intros a rest. unfold take_n.
+    replace (Nat.ltb (List.length (a ++ rest)) (List.length a)) with false
+      by (symmetry; apply Nat.ltb_ge; rewrite app_length; lia).
+    now rewrite firstn_app_exact, skipn_app_exact.
+  Qed.
+
+  Lemma read_num_le_r : forall w x rest, x < 2 ^ (8 * N.of_nat w) -> read_num w (le w x ++ rest) = ROk (x, rest).
+  Proof.
+    intros w x rest Hx. unfold read_num.
+    rewrite <- (le_length w x) at 1. rewrite take_n_app_r. cbn [bind].
+    now rewrite unle_le_small.
+  Qed.
+
+  Lemma enc_str_length_r : forall s, List.length (enc_str s) = (4 + List.length s)%nat.
+  Proof. intro s. unfold enc_str, enc_u32. now rewrite app_length, le_length. Qed.
+
+  Lemma read_str_enc_r : forall s rest, N.of_nat (List.length s) <= MaxStringSize ->
+    read_str (enc_str s ++ rest) = ROk (s, rest).
+  Proof.
+    intros s rest Hs. unfold read_str, enc_str, enc_u32. rewrite <- app_assoc.
+    unfold MaxStringSize in Hs.
+    rewrite read_num_le_r by (change (2 ^ (8 * N.of_nat 4)) with 4294967296; lia).
+    cbn [bind].
+    destruct (N.eqb_spec (N.of_nat (List.length s)) 0) as [E0|N0].
+    - destruct s as [|x s]; [reflexivity|cbn [List.length] in E0; lia].
+    - replace (MaxStringSize <? N.of_nat (List.length s)) with false
+        by (symmetry; apply N.ltb_ge; unfold MaxStringSize; lia).
+      rewrite Nat2N.id. apply take_n_app_r.
+  Qed.
+
+  Section LoopsExact.
+    Context {A : Type}.
+    Variable p : bytes -> res (A * bytes).
+    Variable enc : A -> bytes.
+
+    Lemma rep_nat_exact_r : forall (l : list A) rest,
+      (forall x, In x l -> forall r, p (enc x ++ r) = ROk (x, r)) ->
+      rep_nat p (List.length l) (flat_map enc l ++ rest) = ROk (l, rest).
+    Proof.
+      induction l as [|x l IH]; intros rest Hp; [reflexivity|].
+      cbn [List.length rep_nat flat_map]. rewrite <- app_assoc.
+      rewrite (Hp x (or_introl eq_refl)).
+      rewrite IH by (intros y Hy; apply Hp; now right). reflexivity.
+    Qed.
+
+    Lemma flat_map_length_ge_r : forall (l : list A),
+      (forall x, In x l -> (1 <= List.length (enc x))%nat) ->
+      (List.length l <= List.length (flat_map enc l))%nat.
+    Proof.
+      induction l as [|x l IH]; intro Hn; [cbn; lia|].
+      cbn [flat_map List.length]. rewrite app_length.
+      pose proof (Hn x (or_introl eq_refl)) as H1.
+      assert (H2 : (List.length l <= List.length (flat_map enc l))%nat)
+        by (apply IH; intros y Hy; apply Hn; now right).
+      lia.
+    Qed.
+
+    Lemma rep_exact_r : forall (l : list A) rest,
+      (forall x, In x l -> forall r, p (enc x ++ r) = ROk (x, r)) ->
+      (forall x, In x l -> (1 <= List.length (enc x))%nat) ->
+      rep p (N.of_nat (List.length l)) (flat_map enc l ++ rest) = ROk (l, rest).
+    Proof.
+      intros l rest Hp Hn. unfold rep.
+      pose proof (flat_map_length_ge_r l Hn) as Hlen.
+      replace (N.of_nat (List.length (flat_map enc l ++ rest)) <? N.of_nat (List.length l)) with false
+        by (symmetry; apply N.ltb_ge; rewrite app_length; lia).
+      rewrite Nat2N.id. now apply rep_nat_exact_r.
+    Qed.
+  End LoopsExact.
+
+  Lemma pair_with_exact_r : forall {A B} (pk : bytes -> res (A * bytes)) (pv : bytes -> res (B * bytes))
+      (ek ev : bytes) (k : A) (v : B) rest,
+    (forall r, pk (ek ++ r) = ROk (k, r)) -> (forall r, pv (ev ++ r) = ROk (v, r)) ->
+    pair_with pk pv ((ek ++ ev) ++ rest) = ROk ((k, v), rest).
+  Proof.
+    intros A B pk pv ek ev k v rest Hk Hv. unfold pair_with.
+    now rewrite <- app_assoc, Hk, Hv.
+  Qed.
+
+  Lemma fields_with_exact_r : forall (ps : list ((bytes -> res (tval * bytes)) * tval)) (l : list tval),
+    Forall2 (fun pz x => forall r, fst pz (spec_enc x ++ r) = ROk (x, r)) ps l ->
+    forall rest, fields_with c ps (flat_map spec_enc l ++ rest) = ROk (l, rest).
+  Proof.
+    intros ps l H. induction H as [|[p z] x ps l Hx Hr IH]; intro rest; [reflexivity|].
+    cbn [fst] in Hx. cbn [fields_with flat_map]. rewrite <- app_assoc, Hx, IH. reflexivity.
+  Qed.
